@@ -435,10 +435,38 @@ func init() {
 		s.ValW[4] += 4 // boundary-aimed lengths: the file ends at every distance from a block boundary
 		inner := s.genPlain(rng, restartCfgFn(c, rng, small, 0.7))
 		lastRestart := false
+		var queued *Op
+		sweep := 0
 		return func(r *Runner, i int) *Op {
+			if queued != nil {
+				op := queued
+				queued = nil
+				lastRestart = true
+				return op
+			}
 			op := inner(r, i)
 			if op == nil {
 				return nil
+			}
+			// thorough tier: "all positions at which the log of any data file may end (every offset within a block)" -
+			// half of the restarts are preceded by a Put sized so that the active file ends at offset
+			// (131*runIndex + n) mod 32768, which walks every residue as the run index grows
+			if tier == "thorough" && op.K == "restart" && rng.Chance(0.5) {
+				if _, f := r.activeDataFile(); f != nil {
+					target := (131*GenIdx + sweep) % blockSz
+					sweep++
+					k := s.key(rng)
+					total := (target - int(f.Size%blockSz)) % blockSz
+					if total < 0 {
+						total += blockSz
+					}
+					n := total - len(k) - s.ovh
+					for n < 0 {
+						n += blockSz - 7
+					}
+					queued = op
+					return &Op{K: "put", Key: k, Val: &Val{Len: n, Tag: s.nextTag()}, Dt: 1000}
+				}
 			}
 			// two restarts in a row, restart right after merge / batch / oversized record
 			if !lastRestart && i > 0 && rng.Chance(0.15) {
